@@ -1,3 +1,67 @@
+/-
+  C14 — Scheduled work runs once, in order, never early; failures stay isolated.
+
+  Model: `BacVerif.Model.Task` (TaskManager + _Task/RecurringTask attributes +
+  core.run / core.run_once / core.deferred, the tree AFTER fixes/C14-*.patch).
+  A history is any `List Op` (install at / after / bare re-install, recurring
+  install, suspend, resume, defer, tick, single step, run_once pass, run pass)
+  applied to a `Fresh` world: ANY assignment of task classes, scripted bodies
+  (raising or not, deferring anything), spin and tick length.  All theorems
+  below are for all histories of any length, by induction over the history and
+  over the fuel of the loops (`reachable_winv`).
+
+  Property text → formal statement
+  * "Tasks fire in non-decreasing order of their due time and, among equal
+    times, in the order they were installed"
+        → `fire_order` (for every pair of firings that were pending together the
+          earlier one has the smaller `(due, installation number)`),
+          `fire_is_min` (one step: the popped entry is the heap minimum),
+          `refine_pop` (… = the head of the abstract sorted list)
+  * "a task never fires before its time"              → `never_early`
+  * "fires once per installation"
+        → `once_per_install` (no installation number twice in the log),
+          `install_fate` (every installation is exactly one of queued / fired /
+          deleted), `fires_exactly_once` + `advOnce_complete` / `advRun_complete`
+          (after a complete pass nothing due is left: what was not deleted and
+          whose time has come HAS fired)
+  * "does not fire after being suspended"
+        → `suspended_silent`, `unscheduled_silent` (task level, arbitrary
+          continuation that does not re-arm the task), `removed_never_fires`
+          (installation level)
+  * "re-installing a pending task moves it rather than duplicating it"
+        → `reinstall_moves`, `reinstall_moves_delta`, `install_moves` (one entry,
+          at the new time, newest number; nobody else touched) and the invariant
+          `one_entry_iff_flagged` (at most one heap entry per task, present iff
+          `isScheduled`) for every reachable state
+  * "A recurring task fires once at each successive multiple of its interval
+    (plus offset), starting strictly after installation"
+        → `recurring_grid` (k-th firing = first slot + k·interval, on the grid,
+          after installation), `slotAfter_grid/_gt/_le/_first/_succ`,
+          `recurring_no_burst`, and the link to the model `installRecurring_time`,
+          `process_heap` (the re-install inside process_task happens even when
+          the body raised).  Exact integers; Python floats are a checked, not a
+          proved, refinement (harness stream `grid`).
+  * "Every function handed to the deferred-call queue is called exactly once in
+    submission order"
+        → `deferred_fifo` (invariant: submitted = called ++ queued, as lists),
+          `drain_queue_empty` (the drain loop terminates with an empty queue),
+          hence `calls = subs` after every pass (`advOnce_complete`)
+  * "an exception raised by one task or deferred function does not prevent the
+    others that are already queued or due from running"
+        → `deferred_isolated` (the call sequence is the same for EVERY choice of
+          raising members, at any depth), `batch_isolated` (every member of a
+          batch is called, the raising ones are logged), `runOnce_complete`,
+          `runLoop_complete` (quantified over all bodies, raising or not: the
+          pass still fires everything that is due)
+  * refinement of the list-of-triples heap to an abstract sorted multiset of
+    deadlines → `refine_pop`, `refine_idle`, `refine_push`, `refine_suspend`
+
+  Partial / not proved: float arithmetic of the recurring slot (see above);
+  `runLoop` is modelled with explicit fuel and its completeness theorem is
+  conditional on the loop reaching `stop()` (a bound on the number of recurring
+  firings before `T` is not proved; run_once and the drain loop need no such
+  hypothesis: `runOnce_complete`, `drain_queue_empty`).
+-/
 import BacVerif.Model.Task
 namespace BacVerif.C14
 open BacVerif.Task
@@ -1483,4 +1547,401 @@ theorem runLoop_complete (fuel T : Nat) {w : World} (h : WInv w) (hT : w.now ≤
         · rw [runLoop_wait n T hr' htr' hgt] at hdone ⊢
           have hw := drain_winv (setNow_winv (w.fireNext.1.now + w.fireNext.1.timeout w.fireNext.2.1) h1)
           exact ih hw (by rw [(drain_same _).2.1]; simp only; omega) hdone
+/-! ## deferred functions: the call sequence does not depend on who raises -/
+
+/-- breadth-first ids of a submission forest — defined without looking at `raises` -/
+def bfs : Nat → List Fn → List Nat
+  | 0, _ => []
+  | fuel + 1, q =>
+    match q with
+    | [] => []
+    | _ => q.map Fn.id ++ bfs fuel (q.flatMap Fn.kids)
+
+theorem deferAll_calls (w : World) (fs : List Fn) :
+    (w.deferAll fs).calls = w.calls ∧ (w.deferAll fs).failed = w.failed := by
+  unfold World.deferAll
+  induction fs generalizing w with
+  | nil => exact ⟨rfl, rfl⟩
+  | cons f r ih => simp only [List.foldl_cons]; exact ih (w.defer f)
+
+theorem callFn_calls (w : World) (f : Fn) :
+    (w.callFn f).calls = w.calls ++ [f.id] ∧
+    (w.callFn f).failed = w.failed ++ (if f.raises then [f.id] else []) := by
+  unfold World.callFn
+  simp only
+  split <;> simp [deferAll_calls, *]
+
+theorem runBatch_calls (w : World) (b : List Fn) :
+    (w.runBatch b).calls = w.calls ++ b.map Fn.id ∧
+    (w.runBatch b).queue = w.queue ++ b.flatMap Fn.kids ∧
+    (w.runBatch b).failed = w.failed ++ (b.filter Fn.raises).map Fn.id := by
+  unfold World.runBatch
+  induction b generalizing w with
+  | nil => simp
+  | cons f r ih =>
+    simp only [List.foldl_cons]
+    obtain ⟨h1, h2, h3⟩ := ih (w.callFn f)
+    rw [h1, h2, h3, (callFn_calls w f).1, (callFn_calls w f).2, callFn_queue]
+    refine ⟨by simp, by simp, ?_⟩
+    cases hr : f.raises <;> simp [hr]
+
+/-- **deferred_isolated** (one batch): every member of the batch is called, in
+    order, and exactly the raising ones are logged — a raising member does not
+    cut the batch short -/
+theorem batch_isolated (w : World) (b : List Fn) :
+    (w.runBatch b).calls = w.calls ++ b.map Fn.id ∧
+    (w.runBatch b).failed = w.failed ++ (b.filter Fn.raises).map Fn.id :=
+  ⟨(runBatch_calls w b).1, (runBatch_calls w b).2.2⟩
+
+theorem drainFuel_calls (fuel : Nat) (w : World) :
+    (w.drainFuel fuel).calls = w.calls ++ bfs fuel w.queue := by
+  induction fuel generalizing w with
+  | zero => simp [World.drainFuel, bfs]
+  | succ n ih =>
+    unfold World.drainFuel bfs
+    cases hq : w.queue with
+    | nil => simp
+    | cons f r =>
+      simp only
+      rw [ih]
+      obtain ⟨h1, h2, _⟩ := runBatch_calls { w with queue := [] } (f :: r)
+      rw [h1, h2]
+      simp
+
+/-- the calls made by the drain loop are the breadth-first ids of the queue:
+    a function of the submission forest alone -/
+theorem drain_calls (w : World) : w.drain.calls = w.calls ++ bfs (weights w.queue) w.queue :=
+  drainFuel_calls _ w
+
+mutual
+  /-- the same function, not raising -/
+  def stripFn : Fn → Fn
+    | .mk i _ kids => .mk i false (stripAll kids)
+  def stripAll : List Fn → List Fn
+    | [] => []
+    | f :: r => stripFn f :: stripAll r
+end
+
+theorem stripAll_append (a b : List Fn) : stripAll (a ++ b) = stripAll a ++ stripAll b := by
+  induction a with
+  | nil => simp [stripAll]
+  | cons f r ih => simp [stripAll, ih]
+
+theorem strip_id (f : Fn) : (stripFn f).id = f.id := by cases f; simp [stripFn, Fn.id]
+theorem strip_kids (f : Fn) : (stripFn f).kids = stripAll f.kids := by cases f; simp [stripFn, Fn.kids]
+
+theorem stripAll_ids (q : List Fn) : (stripAll q).map Fn.id = q.map Fn.id := by
+  induction q with
+  | nil => simp [stripAll]
+  | cons f r ih => simp [stripAll, ih, strip_id]
+
+theorem stripAll_kids (q : List Fn) : (stripAll q).flatMap Fn.kids = stripAll (q.flatMap Fn.kids) := by
+  induction q with
+  | nil => simp [stripAll]
+  | cons f r ih => simp [stripAll, ih, strip_kids, stripAll_append]
+
+theorem stripAll_nil {q : List Fn} : stripAll q = [] ↔ q = [] := by
+  cases q <;> simp [stripAll]
+
+mutual
+  theorem strip_weight : ∀ f : Fn, (stripFn f).weight = f.weight
+    | .mk i r kids => by simp [stripFn, Fn.weight, stripAll_weights kids]
+  theorem stripAll_weights : ∀ q : List Fn, weights (stripAll q) = weights q
+    | [] => by simp [stripAll]
+    | f :: r => by simp [stripAll, weights, strip_weight f, stripAll_weights r]
+end
+
+theorem bfs_strip (fuel : Nat) (q : List Fn) : bfs fuel (stripAll q) = bfs fuel q := by
+  induction fuel generalizing q with
+  | zero => simp [bfs]
+  | succ n ih =>
+    unfold bfs
+    cases q with
+    | nil => simp [stripAll]
+    | cons f r =>
+      have : stripAll (f :: r) = stripFn f :: stripAll r := by simp [stripAll]
+      rw [this]
+      simp only
+      rw [← this, stripAll_ids, stripAll_kids, ih]
+
+/-- **deferred_isolated** — for EVERY choice of raising members (at any depth
+    of deferral) the drain loop makes exactly the calls it makes when nobody
+    raises, in the same order -/
+theorem deferred_isolated (w : World) :
+    w.drain.calls = ({ w with queue := stripAll w.queue } : World).drain.calls := by
+  rw [drain_calls, drain_calls]
+  simp only
+  rw [stripAll_weights, bfs_strip]
+
+/-! ## the exactly-once clauses after a complete pass -/
+
+/-- after `clock += d; run_once()` in any reachable state: the pass completes,
+    nothing queued is due, the deferred queue is empty and every function ever
+    submitted has been called exactly once in submission order -/
+theorem advOnce_complete {w : World} (hw : Fresh w) (ops : List Op) (d : Nat) :
+    let v := ((w.run ops).step (.advOnce d))
+    v.2 = some 1 ∧ NoDue v.1 ∧ v.1.queue = [] ∧ v.1.calls = v.1.subs := by
+  intro v
+  have h0 : WInv ({ w.run ops with now := (w.run ops).now + d } : World) := setNow_winv _ (reachable_winv hw ops)
+  obtain ⟨h1, h2, h3, _⟩ := runOnce_complete h0
+  have hv : WInv v.1 := step_winv _ (reachable_winv hw ops)
+  have hf := hv.fifo
+  unfold DInv at hf
+  refine ⟨?_, h2, h3, ?_⟩
+  · show some (if (World.runOnce _).2 then 1 else 0) = some 1
+    rw [h1]; rfl
+  · have h3' : v.1.queue = [] := h3
+    rw [hf, h3']; simp
+
+/-- the same for `run()` until `now + d`, provided the loop reached `stop()` -/
+theorem advRun_complete {w : World} (hw : Fresh w) (ops : List Op) (d fuel : Nat)
+    (hdone : ((w.run ops).step (.advRun d fuel)).2 = some 1) :
+    let v := ((w.run ops).step (.advRun d fuel))
+    v.1.now = (w.run ops).now + d ∧ NoDue v.1 ∧ v.1.queue = [] ∧ v.1.calls = v.1.subs := by
+  intro v
+  have h0 : WInv (w.run ops) := reachable_winv hw ops
+  have hd : ((w.run ops).runLoop fuel ((w.run ops).now + d)).2 = true := by
+    have : (some (if ((w.run ops).runLoop fuel ((w.run ops).now + d)).2 then 1 else 0) : Option Nat) = some 1 := hdone
+    cases hb : ((w.run ops).runLoop fuel ((w.run ops).now + d)).2 with
+    | true => rfl
+    | false => rw [hb] at this; simp at this
+  obtain ⟨h1, h2, h3⟩ := runLoop_complete fuel _ h0 (Nat.le_add_right _ _) hd
+  have hv : WInv v.1 := step_winv _ h0
+  have hf := hv.fifo
+  unfold DInv at hf
+  refine ⟨h1, h2, h3, ?_⟩
+  have h3' : v.1.queue = [] := h3
+  rw [hf, h3']; simp
+
+/-- **once_per_install** (exactly once): after a complete pass, every
+    installation ever made has either fired (once: `once_per_install`), or was
+    deleted by suspend_task / replaced by a re-install, or is queued for a time
+    that has not come yet -/
+theorem fires_exactly_once {w : World} (hw : Fresh w) (ops : List Op) (d : Nat) (s : Nat) :
+    let v := ((w.run ops).step (.advOnce d)).1
+    s < v.tm.counter →
+      s ∈ v.fired.map (·.seq) ∨ s ∈ v.tm.removed ∨ ∃ e ∈ v.tm.heap, e.seq = s ∧ v.now < e.time := by
+  intro v hs
+  have hv : WInv v := step_winv _ (reachable_winv hw ops)
+  have hnd : NoDue v := (advOnce_complete hw ops d).2.1
+  have := hv.sched.part.mem_iff.mpr (List.mem_range.mpr hs)
+  simp only [List.mem_append] at this
+  rcases this with (h | h) | h
+  · obtain ⟨e, he, rfl⟩ := List.mem_map.mp h
+    exact Or.inr (Or.inr ⟨e, he, rfl, hnd e he⟩)
+  · exact Or.inl h
+  · exact Or.inr (Or.inl h)
+/-! ## refinement: the heap-as-a-list is an abstract sorted multiset of deadlines
+
+  The abstract scheduler is a list of entries sorted by `(time, seq)`:
+  install = ordered insertion (`ins`), fire = take the head, suspend = the
+  inverse of an insertion.  `absOf` maps the concrete heap to it. -/
+
+/-- ordered insertion -/
+def ins (e : Entry) : List Entry → List Entry
+  | [] => [e]
+  | x :: r => if e.before x then e :: x :: r else x :: ins e r
+
+/-- the abstraction function: insertion sort of the heap entries -/
+def absOf : List Entry → List Entry
+  | [] => []
+  | e :: r => ins e (absOf r)
+
+theorem ins_perm (e : Entry) (l : List Entry) : (ins e l).Perm (e :: l) := by
+  induction l with
+  | nil => exact List.Perm.refl _
+  | cons x r ih =>
+    simp only [ins]
+    split
+    · exact List.Perm.refl _
+    · exact (List.Perm.cons x ih).trans (List.Perm.swap _ _ _)
+
+theorem ins_sorted (e : Entry) {l : List Entry} (h : l.Pairwise Entry.before) :
+    (ins e l).Pairwise Entry.before := by
+  induction l with
+  | nil => simp [ins]
+  | cons x r ih =>
+    simp only [ins]
+    obtain ⟨hx, hr⟩ := List.pairwise_cons.mp h
+    split
+    · rename_i hb
+      refine List.pairwise_cons.mpr ⟨?_, h⟩
+      intro y hy
+      rcases List.mem_cons.mp hy with rfl | hy'
+      · exact hb
+      · exact before_trans hb (hx y hy')
+    · rename_i hb
+      refine List.pairwise_cons.mpr ⟨?_, ih hr⟩
+      intro y hy
+      rcases List.mem_cons.mp ((ins_perm e r).mem_iff.mp hy) with rfl | hy'
+      · rcases before_total y x with h1 | h1
+        · exact absurd h1 hb
+        · exact h1
+      · exact hx y hy'
+
+theorem absOf_perm (l : List Entry) : (absOf l).Perm l := by
+  induction l with
+  | nil => exact List.Perm.refl _
+  | cons e r ih => exact (ins_perm e _).trans (List.Perm.cons e ih)
+
+/-- the abstract state is sorted -/
+theorem absOf_sorted (l : List Entry) : (absOf l).Pairwise Entry.before := by
+  induction l with
+  | nil => simp [absOf]
+  | cons e r ih => exact ins_sorted e ih
+
+/-- two entries of a list with distinct installation numbers that agree on the
+    number are the same entry -/
+theorem eq_of_seq_eq {l : List Entry} (hn : (l.map (·.seq)).Nodup) {a b : Entry}
+    (ha : a ∈ l) (hb : b ∈ l) (hs : a.seq = b.seq) : a = b := by
+  induction l with
+  | nil => cases ha
+  | cons x r ih =>
+    simp only [List.map_cons] at hn
+    obtain ⟨hx, hr⟩ := List.nodup_cons.mp hn
+    rcases List.mem_cons.mp ha with rfl | ha' <;> rcases List.mem_cons.mp hb with rfl | hb'
+    · rfl
+    · exact absurd (List.mem_map.mpr ⟨b, hb', hs.symm⟩) hx
+    · exact absurd (List.mem_map.mpr ⟨a, ha', hs⟩) hx
+    · exact ih hr ha' hb'
+
+/-- a sorted arrangement of entries with distinct installation numbers is unique -/
+theorem sorted_unique {a b : List Entry} (hp : a.Perm b) (hn : (a.map (·.seq)).Nodup)
+    (ha : a.Pairwise Entry.before) (hb : b.Pairwise Entry.before) : a = b := by
+  induction a generalizing b with
+  | nil => exact (List.Perm.nil_eq hp)
+  | cons x a' ih =>
+    cases b with
+    | nil => exact absurd hp.symm (by simp)
+    | cons y b' =>
+      obtain ⟨hxa, ha'⟩ := List.pairwise_cons.mp ha
+      obtain ⟨hyb, hb'⟩ := List.pairwise_cons.mp hb
+      have hxy : x = y := by
+        have hy_in : y ∈ x :: a' := hp.mem_iff.mpr List.mem_cons_self
+        have hx_in : x ∈ y :: b' := hp.mem_iff.mp List.mem_cons_self
+        have h1 : x.before y := by
+          rcases List.mem_cons.mp hy_in with rfl | h
+          · exact before_refl _
+          · exact hxa y h
+        have h2 : y.before x := by
+          rcases List.mem_cons.mp hx_in with rfl | h
+          · exact before_refl _
+          · exact hyb x h
+        have hs : x.seq = y.seq := by unfold Entry.before at h1 h2; omega
+        exact eq_of_seq_eq hn List.mem_cons_self hy_in hs
+      subst hxy
+      have hn' : (a'.map (·.seq)).Nodup := by
+        simp only [List.map_cons] at hn; exact (List.nodup_cons.mp hn).2
+      rw [ih (List.Perm.cons_inv hp) hn' ha' hb']
+
+/-- whenever the concrete heap loses the entry `x` (by `heappop` or by
+    `suspend_task`), the abstract state is the old one with `x` taken out:
+    `absOf old = ins x (absOf new)` -/
+theorem refine_remove {h r : List Entry} {x : Entry} (hp : h.Perm (x :: r))
+    (hn : (h.map (·.seq)).Nodup) : absOf h = ins x (absOf r) := by
+  apply sorted_unique
+  · exact (absOf_perm h).trans (hp.trans ((ins_perm x _).trans (List.Perm.cons x (absOf_perm r))).symm)
+  · exact ((absOf_perm h).map (·.seq)).nodup_iff.mpr hn
+  · exact absOf_sorted h
+  · exact ins_sorted x (absOf_sorted r)
+
+theorem ins_min {e : Entry} {l : List Entry} (h : ∀ x ∈ l, e.before x) : ins e l = e :: l := by
+  cases l with
+  | nil => rfl
+  | cons x r => simp [ins, h x List.mem_cons_self]
+
+/-- **refinement, fire** — `get_next_task` pops exactly the head of the
+    abstract sorted list, and only when it is due -/
+theorem refine_pop {tm tm' : TM} {fired : List Fire} {now : Nat} {e : Entry} {d : Option Nat}
+    (h : SInv tm fired) (hg : tm.getNext now = (some e, d, tm')) :
+    absOf tm.heap = e :: absOf tm'.heap ∧ e.time ≤ now := by
+  obtain ⟨_, hdue, _, hperm, hmin⟩ := getNext_some h hg
+  refine ⟨?_, hdue⟩
+  rw [refine_remove hperm h.seq_nodup]
+  exact ins_min (fun x hx => hmin x ((absOf_perm _).mem_iff.mp hx))
+
+/-- … and pops nothing iff the abstract list is empty or its head is not due -/
+theorem refine_idle {tm tm' : TM} {now : Nat} {d : Option Nat}
+    (hg : tm.getNext now = (none, d, tm')) :
+    tm' = tm ∧ ∀ x ∈ absOf tm.heap, now < x.time := by
+  obtain ⟨h1, h2, _⟩ := getNext_none hg
+  exact ⟨h1, fun x hx => h2 x ((absOf_perm _).mem_iff.mp hx)⟩
+
+/-- **refinement, install** — pushing onto the heap is ordered insertion (by definition) -/
+theorem refine_push (e : Entry) (h : List Entry) : absOf (e :: h) = ins e (absOf h) := rfl
+
+/-- **refinement, suspend** — `suspend_task` that finds the task takes its
+    entry out of the abstract list; one that does not find it changes nothing -/
+theorem refine_suspend {tm : TM} {fired : List Fire} (h : SInv tm fired) (tid : Nat) :
+    (∃ x, x.tid = tid ∧ absOf tm.heap = ins x (absOf (tm.suspend tid).heap)) ∨
+    ((∀ x ∈ tm.heap, x.tid ≠ tid) ∧ (tm.suspend tid).heap = tm.heap) := by
+  unfold TM.suspend
+  cases hr : removeTid tid tm.heap with
+  | none => exact Or.inr ⟨removeTid_none.mp hr, rfl⟩
+  | some p =>
+    obtain ⟨x, r⟩ := p
+    obtain ⟨hx, hperm⟩ := removeTid_some hr
+    exact Or.inl ⟨x, hx, refine_remove hperm h.seq_nodup⟩
+
+/-! ## non-vacuity: concrete histories meeting the hypotheses, evaluated by the kernel
+
+  These are tests of the model (labelled as such), not the theorems. -/
+
+section Examples
+
+/-- three one-shot tasks (task 1 raises and defers a raising function with a
+    child), one recurring task (id 3) -/
+def demoWorld : World :=
+  { recurring := fun t => t == 3,
+    body := fun t => if t == 1 then { raises := true, defers := [Fn.mk 7 true [Fn.mk 8 false []]] } else {} }
+
+example : Fresh demoWorld := by
+  refine ⟨rfl, rfl, rfl, fun _ => rfl, rfl, rfl, rfl, rfl⟩
+
+def demoOps : List Op :=
+  [.installAt 0 500000, .installAfter 1 500000, .installAt 2 500000, .installRec 3 (some 300000) none,
+   .installBare 0,                       -- re-install: task 0 now ties AFTER tasks 1 and 2
+   .suspend 2, .defer (Fn.mk 1 true []), .defer (Fn.mk 2 false []),
+   .advOnce 500000, .resume 2, .advRun 1000000 100]
+
+/-- the history fires the recurring task at 300000 (late, at 500000), then
+    task 1 (raises), then task 0 (re-installed, so after task 1); task 2 was
+    suspended; after the resume it fires (late); the recurring task then runs on
+    its grid 600000, 900000, 1200000, 1500000 -/
+example : (demoWorld.run demoOps).fired.map (fun f => (f.tid, f.due, f.now)) =
+    [(3, 300000, 500000), (1, 500000, 500000), (0, 500000, 500000), (2, 500000, 500000),
+     (3, 600000, 600000), (3, 900000, 900000), (3, 1200000, 1200000), (3, 1500000, 1500000)] := by
+  decide +kernel
+
+/-- deferred: 1 (raises), 2, then 7 (raises, submitted by the raising task 1), then its child 8 -/
+example : (demoWorld.run demoOps).calls = [1, 2, 7, 8] ∧ (demoWorld.run demoOps).subs = [1, 2, 7, 8] ∧
+    (demoWorld.run demoOps).failed = [1, 7] ∧ (demoWorld.run demoOps).tm.removed = [0, 2] := by
+  decide +kernel
+
+/-- the hypothesis of `advRun_complete` is met: the loop reaches `stop()` -/
+example : ((demoWorld.run (demoOps.take 10)).step (.advRun 1000000 100)).2 = some 1 := by
+  decide +kernel
+
+/-- `suspended_silent`: the hypothesis "nobody arms task 2" holds for a non-trivial tail -/
+example : ∀ op ∈ [Op.advOnce 500000, Op.installAt 0 7, Op.advRun 1000000 100], arms 2 op = false := by
+  decide
+
+/-- `recurring_grid` with 1/3 s in ticks of 1/3 µs (interval 10⁶, jitter 3, offset 10⁵),
+    installed at 123456 µs: firings number 0, 1, 2 -/
+example : (fireTime (3 * 123456) 3 1000000 100000 0, fireTime (3 * 123456) 3 1000000 100000 1,
+    fireTime (3 * 123456) 3 1000000 100000 2) = (1100000, 2100000, 3100000) := by
+  decide +kernel
+
+/-- the slot exactly one jitter ahead is skipped by the code's formula (the
+    boundary the harness keeps away from) -/
+example : slotAfter (999999 + 1) 1000000 0 = 2000000 := by decide +kernel
+
+/-- `deferred_isolated` on a forest with raising members at both levels -/
+example : ({ queue := [Fn.mk 1 true [Fn.mk 3 true []], Fn.mk 2 false [Fn.mk 4 false []]] } : World).drain.calls
+    = [1, 2, 3, 4] := by decide +kernel
+
+/-- refinement: the abstraction of a heap with colliding times -/
+example : absOf [⟨5, 2, 0⟩, ⟨5, 0, 1⟩, ⟨3, 1, 2⟩] = [⟨3, 1, 2⟩, ⟨5, 0, 1⟩, ⟨5, 2, 0⟩] := by decide +kernel
+
+end Examples
 end BacVerif.C14
